@@ -286,6 +286,7 @@ def check_cfg(F, R, cfg):
             ns += 1
             (R.ok if ok else R.viol)("C17.sum", I(inst), msg, *(() if ok else (F.loc(f_),)))
         R.floor("C17.sum", I("SubgroupPoint Sum impl decided"), ns, 1)
+    good_from_bytes = False
     for nm in ("from_bytes", "from_bytes_unchecked"):
         f = method(SP, r"GroupEncoding$", nm)
         if f:
@@ -301,7 +302,14 @@ def check_cfg(F, R, cfg):
                     if cf:
                         cv = view(F, cf)
                         inner = any(x["kind"] == "call" and re.search(r"CofactorGroup>::into_subgroup$", cname(x["term"])) and root(cv, x["term"]["args"][0])[:2] == ("arg", 2) for x in cv.exit_sites())
+                    elif ce[0] == "fnitem" and re.search(r"CofactorGroup(>)?::into_subgroup$", str(ce[1])):
+                        inner = True          # `and_then(CofactorGroup::into_subgroup)`: the function itself instead of a closure around it
                     good = src is not None and inner
+                elif nm == "from_bytes_unchecked" and good_from_bytes and s["kind"] == "call" and \
+                        re.search(r"SubgroupPoint as group::GroupEncoding>::from_bytes$", cname(s["term"])) and root(fv, s["term"]["args"][0])[:2] == ("arg", 1):
+                    good = True               # delegates to the checked decoder (already decided) on the same bytes
+            if nm == "from_bytes":
+                good_from_bytes = good
             (R.ok if good else R.viol)("C17.subgroup_from_bytes", I("GroupEncoding for SubgroupPoint::" + nm), "EdwardsPoint::%s(bytes).and_then(into_subgroup)" % nm if good else
                                        "SubgroupPoint decoding does not go through the Edwards decoder and into_subgroup", *(() if good else (fv.loc(),)))
     # SubgroupPoint constructor inventory: only into_subgroup / clear_cofactor may wrap an arbitrary EdwardsPoint parameter
